@@ -71,6 +71,8 @@ pub struct Acc {
     pub foreign: BTreeMap<String, BTreeMap<String, u64>>,
     pub known_hits: BTreeMap<String, u64>,
     pub samples: Vec<serde_json::Value>,
+    /// the first executed case (reported as a sample when no non-trivial one was recorded)
+    pub first_case: Option<serde_json::Value>,
     pub hangs: u64,
     pub hang_case: Option<Case>,
     pub harness_errors: u64,
@@ -92,6 +94,7 @@ impl Acc {
             foreign: BTreeMap::new(),
             known_hits: BTreeMap::new(),
             samples: Vec::new(),
+            first_case: None,
             hangs: 0,
             hang_case: None,
             harness_errors: 0,
@@ -128,6 +131,9 @@ impl Acc {
             return mine;
         }
         self.executions += 1;
+        if self.first_case.is_none() {
+            self.first_case = Some(json!({"case": case, "classes": res.stats.classes, "non_trivial": false}));
+        }
         self.faults_fired += res.stats.faults_fired as u64;
         self.ops_run += res.stats.ops_run as u64;
         self.events[0] += res.stats.trace_events as u64;
@@ -159,7 +165,7 @@ impl Acc {
             "classes": self.classes,
             "foreign": self.foreign,
             "known_hits": self.known_hits,
-            "samples": self.samples,
+            "samples": if self.samples.is_empty() { self.first_case.iter().cloned().collect::<Vec<_>>() } else { self.samples.clone() },
             "hangs": self.hangs,
             "hang_case": self.hang_case,
             "harness_errors": self.harness_errors,
@@ -292,6 +298,7 @@ where
         rng_seed: RngSeed::Fixed(seed),
         ..Config::default()
     });
+    let first: std::cell::RefCell<Option<serde_json::Value>> = std::cell::RefCell::new(None);
     let eval = |v: T| {
         let out = run(&v, false);
         let mut st = state.borrow_mut();
@@ -314,6 +321,9 @@ where
             }
             if out.nontrivial && st.1.insert(out.hash) && st.3.len() < 4 {
                 st.3.push(serde_json::to_value(&v).unwrap());
+            }
+            if st.0 == 1 {
+                *first.borrow_mut() = Some(serde_json::to_value(&v).unwrap());
             }
         }
         match bad {
@@ -362,7 +372,7 @@ where
     let report = json!({
         "prop": prop, "evaluations": st.0, "executions": st.0,
         "nontrivial_hashes": st.1.iter().collect::<Vec<_>>(),
-        "classes": st.2, "foreign": {}, "known_hits": st.4, "samples": st.3, "hangs": 0, "harness_errors": 0, "harness_msgs": [],
+        "classes": st.2, "foreign": {}, "known_hits": st.4, "samples": if st.3.is_empty() { first.into_inner().into_iter().collect::<Vec<_>>() } else { st.3 }, "hangs": 0, "harness_errors": 0, "harness_msgs": [],
         "events": {},
         "extra": {"engine": engine, "config": cfg_name, "seed": seed, "violation": violation, "fixed_cases": fixed_run},
         "exhaustive": if fixed.is_empty() { serde_json::Value::Null } else { json!({"scope": "fixed grid of the engine (seed-independent)", "cases": fixed_run}) },
